@@ -34,6 +34,9 @@ type TriePlan struct {
 	Ops     []TrieOp `json:"ops"`
 	Items   []string `json:"items,omitempty"` // derive mode
 	Tamper  string   `json:"tamper"`          // sample | all
+	// Scale multiplies what the simulated disk's batches report as their size, so that a flush
+	// of a handful of nodes already crosses the database's batch boundary (100 KiB)
+	Scale int `json:"disk_scale,omitempty"`
 }
 
 func DecodeTriePlan(raw json.RawMessage) (any, error) {
@@ -63,6 +66,7 @@ func GenTriePlan(rng *kernel.RNG, env *kernel.Env, k int) any {
 		}
 		return p
 	}
+	p.Scale = []int{0, 0, 300, 2000, 20000}[rng.Intn(5)]
 	lens := []int{1, 1, 2, 20, 31, 32, 33, 64, 150}
 	n := rng.Range(5, 70)
 	for i := 0; i < n; i++ {
@@ -228,6 +232,10 @@ func ExecTrie(t *testing.T, pa any, col *kernel.Collector) []kernel.Violation {
 		return r.vs
 	}
 	r.disk = simdisk.New()
+	if p.Scale > 1 {
+		r.disk.Scale = p.Scale
+		col.Inc("probe_flush_split_into_several_batches_possible")
+	}
 	r.tdb = trie.NewDatabase(r.disk)
 	r.model, r.flushedModel = map[string][]byte{}, map[string][]byte{}
 	r.flushedRoot = common.BytesToHash(refmodel.EmptyRoot)
